@@ -22,6 +22,9 @@ func c08(args []string) int {
 	rng := hxlib.NewRng(c.seed)
 	out := hxlib.NewOut(c.out)
 	defer out.Close()
+	if c.extra == "ue-iface" {
+		return c08UeIface(c, out)
+	}
 	zoo := varzoo.Zoo()
 	n := 400
 	if c.tier == "thorough" {
